@@ -76,6 +76,6 @@ Print Assumptions C14_nonvacuous.
 Example C14_order_nonvacuous :
   let s := run replace_names restore_names (init (fun _ => Absent))
              [Begin true false true; Alloc; Complete; ResolveOk; EndModel; Init true; Proc true] in
-  exists c, In c (s_ctxs s) /\ map is_init (c_trace c) = [false; true; false; false].
-Proof. eexists. split; [left; reflexivity | vm_compute; reflexivity]. Qed.
+  map (fun c => map is_init (c_trace c)) (s_ctxs s) = [[false; true; false; false]].
+Proof. vm_compute. reflexivity. Qed.
 Print Assumptions C14_order_nonvacuous.
